@@ -8,7 +8,7 @@ for f in $d/demo/*_test.go; do
   [ -f "$f" ] || continue
   pkg=$(grep -m1 '^package ' $f | awk '{print $2}'); pkg=${pkg%_test}
   dir=$pkg; [ "$pkg" = "sts" ] && dir=.
-  cp $f $w/$dir/
+  mkdir -p $w/$dir; cp $f $w/$dir/
   tests="$tests $(grep -o 'func Test[A-Za-z0-9_]*' $f | awk '{print $2}' | tr '\n' '|')"
   dirs="$dirs ./$dir/"
 done
